@@ -17,7 +17,7 @@ theorem blank_facts {c : Nat} (h : isBlank c = true) :
   rcases h with ((rfl | rfl) | rfl) | rfl <;> decide
 
 theorem space_facts {c : Nat} (h : isSpace c = true) :
-    isWs c = true ∧ c ≠ 41 ∧ c ≠ 59 := by
+    isWs c = true ∧ c ≠ 41 ∧ c ≠ 59 ∧ c ≠ 34 := by
   simp only [isSpace, isBlank, Bool.or_eq_true, beq_iff_eq] at h
   rcases h with ((((rfl | rfl) | rfl) | rfl) | rfl) | rfl <;> decide
 
@@ -124,7 +124,7 @@ theorem escapeSeq_esc {c : Nat} (rest : Str) (h1 : isCtl c = false) (h2 : isDig 
 /-- `Quote` collects the characters of the string, decoding `\X`, up to the closing `"` -/
 theorem run_quoted_body (qs : List QChar) (rest acc : Str) (cdv : Option (List Str))
     (hq : qs.all QChar.ok = true) :
-    run ⟨qs.flatMap QChar.render ++ 34 :: rest, .quote, some acc, cdv⟩ =
+    run ⟨qs.flatMap QChar.render ++ 34 :: rest, .quote false, some acc, cdv⟩ =
       .ok (some (.charData (acc ++ qs.map QChar.val)), ⟨rest, .restOfLine⟩) := by
   induction qs generalizing acc with
   | nil => apply run_ret; simp [step]
@@ -136,14 +136,14 @@ theorem run_quoted_body (qs : List QChar) (rest acc : Str) (cdv : Option (List S
       simp only [QChar.ok, Bool.and_eq_true, bne_iff_ne] at hq1
       obtain ⟨c1, c2⟩ := hq1
       rw [List.flatMap_cons, QChar.render, List.append_assoc, List.singleton_append,
-        run_cont (c' := ⟨qs.flatMap QChar.render ++ 34 :: rest, .quote, some (acc ++ [c]), cdv⟩)]
+        run_cont (c' := ⟨qs.flatMap QChar.render ++ 34 :: rest, .quote false, some (acc ++ [c]), cdv⟩)]
       · rw [ih _ hqs]; simp [QChar.val]
       · simp [step, c1, c2, pushToStr]
     | esc c =>
       simp only [QChar.ok, Bool.and_eq_true, Bool.not_eq_eq_eq_not, Bool.not_true] at hq1
       obtain ⟨c1, c2⟩ := hq1
       rw [List.flatMap_cons, QChar.render, List.append_assoc,
-        run_cont (c' := ⟨qs.flatMap QChar.render ++ 34 :: rest, .quote, some (acc ++ [c]), cdv⟩)]
+        run_cont (c' := ⟨qs.flatMap QChar.render ++ 34 :: rest, .quote false, some (acc ++ [c]), cdv⟩)]
       · rw [ih _ hqs]; simp [QChar.val]
       · have := escapeSeq_esc (qs.flatMap QChar.render ++ 34 :: rest) c1 c2
         simp [step, pushToStr, this]
@@ -153,9 +153,40 @@ theorem run_quoted (qs : List QChar) (rest : Str) (hq : qs.all QChar.ok = true) 
     run ⟨(Item.quoted qs).render ++ rest, .restOfLine, none, none⟩ =
       .ok (some (.charData (qs.map QChar.val)), ⟨rest, .restOfLine⟩) := by
   simp only [Item.render, List.cons_append, List.append_assoc, List.singleton_append]
-  rw [run_cont (c' := ⟨qs.flatMap QChar.render ++ 34 :: rest, .quote, some [], none⟩)]
+  rw [run_cont (c' := ⟨qs.flatMap QChar.render ++ 34 :: rest, .quote false, some [], none⟩)]
   · rw [run_quoted_body _ _ _ _ hq]; simp
   · simp [step]
+
+/-- the same inside a group: the string is pushed to the list (`Quote { is_list: true }`) -/
+theorem run_quoted_body_list (qs : List QChar) (rest acc : Str) (v : List Str)
+    (hq : qs.all QChar.ok = true) :
+    run ⟨qs.flatMap QChar.render ++ 34 :: rest, .quote true, some acc, some v⟩ =
+      run ⟨rest, .list, none, some (v ++ [acc ++ qs.map QChar.val])⟩ := by
+  induction qs generalizing acc with
+  | nil =>
+    rw [List.flatMap_nil, List.nil_append,
+      run_cont (c' := ⟨rest, .list, none, some (v ++ [acc])⟩)]
+    · simp
+    · simp [step]
+  | cons q qs ih =>
+    simp only [List.all_cons, Bool.and_eq_true] at hq
+    obtain ⟨hq1, hqs⟩ := hq
+    cases q with
+    | raw c =>
+      simp only [QChar.ok, Bool.and_eq_true, bne_iff_ne] at hq1
+      obtain ⟨c1, c2⟩ := hq1
+      rw [List.flatMap_cons, QChar.render, List.append_assoc, List.singleton_append,
+        run_cont (c' := ⟨qs.flatMap QChar.render ++ 34 :: rest, .quote true, some (acc ++ [c]), some v⟩)]
+      · rw [ih _ hqs]; simp [QChar.val]
+      · simp [step, c1, c2, pushToStr]
+    | esc c =>
+      simp only [QChar.ok, Bool.and_eq_true, Bool.not_eq_eq_eq_not, Bool.not_true] at hq1
+      obtain ⟨c1, c2⟩ := hq1
+      rw [List.flatMap_cons, QChar.render, List.append_assoc,
+        run_cont (c' := ⟨qs.flatMap QChar.render ++ 34 :: rest, .quote true, some (acc ++ [c]), some v⟩)]
+      · rw [ih _ hqs]; simp [QChar.val]
+      · have := escapeSeq_esc (qs.flatMap QChar.render ++ 34 :: rest) c1 c2
+        simp [step, pushToStr, this]
 
 /-! ### comments and line ends -/
 
@@ -238,11 +269,11 @@ theorem run_pgap (g : PGap) (rest : Str) (acc : List Str) (hg : g.all PSeg.ok = 
     cases s with
     | ws c =>
       simp only [PSeg.ok] at hs
-      obtain ⟨f1, f2, f3⟩ := space_facts hs
+      obtain ⟨f1, f2, f3, f4⟩ := space_facts hs
       simp only [renderPGap, List.flatMap_cons, PSeg.render, List.singleton_append, List.cons_append]
       rw [run_cont (c' := ⟨renderPGap g ++ rest, .list, none, some acc⟩)]
       · exact ih hg
-      · simp [step, f1, f2, f3, renderPGap]
+      · simp [step, f1, f2, f3, f4, renderPGap]
     | comment body =>
       simp only [PSeg.ok] at hs
       simp only [renderPGap, List.flatMap_cons, PSeg.render, List.cons_append, List.append_assoc,
@@ -285,12 +316,14 @@ theorem run_list_word (w rest : Str) (v : List Str)
   | nil => simp [wordOK] at hw
   | cons x w =>
     simp only [wordOK, Bool.and_eq_true] at hw
-    obtain ⟨_, hall⟩ := hw
+    obtain ⟨hs, hall⟩ := hw
     have hx : isWordChar x = true := by simp only [List.all_cons, Bool.and_eq_true] at hall; exact hall.1
     obtain ⟨f1, f2, f3, f4, _, _⟩ := wordChar_facts hx
+    simp only [wordStartOK, Bool.and_eq_true, bne_iff_ne] at hs
+    have s4 : x ≠ 34 := hs.2
     rw [run_cont (c' := ⟨(x :: w) ++ rest, .charData true, some [], some v⟩)]
     · rw [run_list_word_body _ _ _ _ hall hd]; simp
-    · simp [step, f1, f2, f3, f4]
+    · simp [step, f1, f2, f3, f4, s4]
 
 theorem pgap_delim (g : PGap) (rest : Str) (hne : g ≠ []) (hg : g.all PSeg.ok = true) :
     ListDelim (renderPGap g ++ rest) := by
@@ -305,12 +338,12 @@ theorem pgap_delim (g : PGap) (rest : Str) (hne : g ≠ []) (hg : g.all PSeg.ok 
     | comment body =>
       exact ⟨59, body ++ 10 :: (renderPGap g ++ rest), by simp [renderPGap, PSeg.render], Or.inr (Or.inr rfl)⟩
 
-def elsOK (els : List (PGap × Str)) : Bool :=
-  els.all fun (g, w) => !g.isEmpty && g.all PSeg.ok && wordOK w
+def elsOK (els : List (PGap × Item)) : Bool :=
+  els.all fun (g, it) => !g.isEmpty && g.all PSeg.ok && it.ok
 
-def renderEls (els : List (PGap × Str)) : Str := els.flatMap fun (g, w) => renderPGap g ++ w
+def renderEls (els : List (PGap × Item)) : Str := els.flatMap fun (g, it) => renderPGap g ++ it.render
 
-theorem els_delim (els : List (PGap × Str)) (close : PGap) (rest : Str)
+theorem els_delim (els : List (PGap × Item)) (close : PGap) (rest : Str)
     (he : elsOK els = true) (hc : close.all PSeg.ok = true) :
     ListDelim (renderEls els ++ (renderPGap close ++ 41 :: rest)) := by
   cases els with
@@ -319,41 +352,54 @@ theorem els_delim (els : List (PGap × Str)) (close : PGap) (rest : Str)
     | nil => exact ⟨41, rest, by simp [renderEls, renderPGap], Or.inr (Or.inl rfl)⟩
     | cons s c => simpa [renderEls] using pgap_delim (s :: c) (41 :: rest) (by simp) hc
   | cons e els =>
-    obtain ⟨g, w⟩ := e
+    obtain ⟨g, it⟩ := e
     simp only [elsOK, List.all_cons, Bool.and_eq_true, Bool.not_eq_eq_eq_not, Bool.not_true] at he
     obtain ⟨⟨⟨hne, hg⟩, _⟩, _⟩ := he
     have hne' : g ≠ [] := by intro h; simp [h] at hne
     simpa [renderEls, List.append_assoc] using
-      pgap_delim g (w ++ (renderEls els ++ (renderPGap close ++ 41 :: rest))) hne' hg
+      pgap_delim g (it.render ++ (renderEls els ++ (renderPGap close ++ 41 :: rest))) hne' hg
+
+/-- one item of a group, contiguous or quoted -/
+theorem run_list_item (it : Item) (rest : Str) (v : List Str)
+    (hi : it.ok = true) (hd : ListDelim rest) :
+    run ⟨it.render ++ rest, .list, none, some v⟩ = run ⟨rest, .list, none, some (v ++ [it.val])⟩ := by
+  cases it with
+  | word w => exact run_list_word w rest v hi hd
+  | quoted qs =>
+    simp only [Item.ok] at hi
+    simp only [Item.render, Item.val, List.cons_append, List.append_assoc, List.singleton_append]
+    rw [run_cont (c' := ⟨qs.flatMap QChar.render ++ 34 :: rest, .quote true, some [], some v⟩)]
+    · rw [run_quoted_body_list _ _ _ _ hi]; simp
+    · simp [step]
 
 /-- the items of a group, wherever the line ends and comments fall -/
-theorem run_group_body (els : List (PGap × Str)) (close : PGap) (rest : Str) (v : List Str)
+theorem run_group_body (els : List (PGap × Item)) (close : PGap) (rest : Str) (v : List Str)
     (he : elsOK els = true) (hc : close.all PSeg.ok = true) :
     run ⟨renderEls els ++ (renderPGap close ++ 41 :: rest), .list, none, some v⟩ =
-      .ok (some (.list (v ++ els.map Prod.snd)), ⟨rest, .restOfLine⟩) := by
+      .ok (some (.list (v ++ els.map fun p => p.2.val)), ⟨rest, .restOfLine⟩) := by
   induction els generalizing v with
   | nil =>
     simp only [renderEls, List.flatMap_nil, List.nil_append, List.map_nil, List.append_nil]
     rw [run_pgap _ _ _ hc]
     apply run_ret; simp [step]
   | cons e els ih =>
-    obtain ⟨g, w⟩ := e
+    obtain ⟨g, it⟩ := e
     have he' := he
     simp only [elsOK, List.all_cons, Bool.and_eq_true] at he
     obtain ⟨⟨⟨_, hg⟩, hw⟩, hels⟩ := he
     have hd := els_delim els close rest (by simpa [elsOK] using hels) hc
-    have : renderEls ((g, w) :: els) = renderPGap g ++ (w ++ renderEls els) := by
+    have : renderEls ((g, it) :: els) = renderPGap g ++ (it.render ++ renderEls els) := by
       simp [renderEls, List.append_assoc]
-    rw [this, List.append_assoc, List.append_assoc, run_pgap _ _ _ hg, run_list_word _ _ _ hw hd,
+    rw [this, List.append_assoc, List.append_assoc, run_pgap _ _ _ hg, run_list_item _ _ _ hw hd,
       ih _ (by simpa [elsOK] using hels)]
     simp
 
-/-- **a parenthesised group is the list of its items**, whatever line ends and comments it
-spans (as long as it contains no quoted string — the known finding) -/
-theorem run_group (els : List (PGap × Str)) (close : PGap) (rest : Str)
+/-- **a parenthesised group is the list of its items** — contiguous or quoted (with `;`, blanks,
+line ends, parentheses inside the quotes) — whatever line ends and comments it spans -/
+theorem run_group (els : List (PGap × Item)) (close : PGap) (rest : Str)
     (he : elsOK els = true) (hc : close.all PSeg.ok = true) :
     run ⟨40 :: (renderEls els ++ (renderPGap close ++ 41 :: rest)), .restOfLine, none, none⟩ =
-      .ok (some (.list (els.map Prod.snd)), ⟨rest, .restOfLine⟩) := by
+      .ok (some (.list (els.map fun p => p.2.val)), ⟨rest, .restOfLine⟩) := by
   rw [run_cont (c' := ⟨renderEls els ++ (renderPGap close ++ 41 :: rest), .list, none, some []⟩)]
   · rw [run_group_body _ _ _ _ he hc]; simp
   · simp [step]
